@@ -47,6 +47,19 @@ Section IdClasses.
     (if fl then stop s' = stop s else start s' = start s).
   Proof. exact (set_length_exact E no_fix id_fix_len s n fl). Qed.
 
+  (** the abstract list model of set_length *)
+  Lemma id_set_length_events (s : st E) n fl : 0 <= n ->
+    events (set_length E no_fix s n fl) =
+      if len s <? n then
+        if fl then repeat (pad s) (Z.to_nat (n - len s)) ++ events s
+        else events s ++ repeat (pad s) (Z.to_nat (n - len s))
+      else if fl then skipn (Z.to_nat (len s - n)) (events s)
+           else firstn (Z.to_nat n) (events s).
+  Proof.
+    intros Hn. unfold len. rewrite <- (base_set_length_events E s n fl Hn).
+    unfold set_length, no_fix. destruct ((zlen (events s) <? n) && negb fl); reflexivity.
+  Qed.
+
   Lemma id_set_length_keeps (s : st E) n fl : Inv s -> 0 <= n ->
     let s' := set_length E no_fix s n fl in
     forall t, start s <= t < stop s -> start s' <= t < stop s' -> event_at s' t = event_at s t.
